@@ -6,18 +6,22 @@ def run(res):
     lib.standard_check(
         res, "c13", n,
         prop_files=["theories/Properties/C13.v"],
-        model_files=["theories/Client/Queues.v"],
+        model_files=["theories/Client/Queues.v", "theories/Client/Drain.v"],
         theorem_note="Properties/C13.v: C13_conservation, C13_result_matches_op, C13_await_sound, C13_converged_is_answered, "
                      "C13_rib_ack_not_terminal_in_fib_mode, C13_violations_surface (+ C13_unknown_id_is_violating, "
                      "C13_duplicate_terminal_is_violating) for the repaired client; without any assumption on the ids: C13_never_silently_gone, "
-                     "C13_same_id_twice_is_rejected, C13_pending_id_is_rejected, C13_rejected_request_surfaces; C13_unknown_rib_ack_refuted for the tree",
+                     "C13_same_id_twice_is_rejected, C13_pending_id_is_rejected, C13_rejected_request_surfaces; C13_unknown_rib_ack_refuted for the tree; "
+                     "the send path under every interleaving of Q / StartSending / StopSending / sender (Client/Drain.v, any channel capacity): C13_send_path_conservation, "
+                     "C13_send_path_never_lost, C13_send_path_at_most_once, C13_send_path_idle, C13_send_path_progress, C13_send_path_terminates, C13_send_path_maximal_run_idle",
         trusted=["Coq 8.16.1 kernel + vm_compute",
                  "hand-written sequential model Client/Queues.v of client/gribiclient.go, validated on every run against the real client",
                  "correspondence harness vh-c13: real client over in-memory gRPC (bufconn) against a scripted stub server; "
                  "quiescence detected by counting the client's own SendMsg/RecvMsg calls (stream interceptor) and Done()"],
         extra_runs=[("c13race", 8 if res.tier == "quick" else 120),
-                    ("c13ack", 20 if res.tier == "quick" else 300)],
-        assumptions=["one event at a time in the model: the harness lets the client absorb each call / response before the next one; "
+                    ("c13ack", 20 if res.tier == "quick" else 300),
+                    ("c13drain", 60 if res.tier == "quick" else 1000)],
+        assumptions=["vh-c13 c13drain (oracle + correspondence with Drain.scenario: did the first StartSending have to wait, and the order in which the stream got the requests): StopSending and further Q calls while StartSending is still handing the queued requests to the sender (the stream's Send is held so that it blocks on the bounded modify channel), then StartSending again: every operation handed to the stream exactly once, pending until answered, exactly one result afterwards",
+                     "one event at a time in the model: the harness lets the client absorb each call / response before the next one; "
                      "one interleaving is exercised on the implementation in addition (vh-c13 c13race: callers spinning in AwaitConverged while one response "
                      "both answers the last pending operation and records a receive error - none may return nil; vh-c13 c13ack: an application looping Results() + AckResult(what it was shown) while the server "
                      "streams one result per response - acknowledged results + final Results() must be exactly the results sent); other interleavings are C14's subject",
